@@ -113,7 +113,8 @@ class C05(Prop):
             ch = False
             for plan in spec.get("plans", []):
                 a = plan.get("acts", {}).get("c", [])
-                b = [x for x in a if not (x[0] == 0 and x[1] in ("delay", "lost_before"))]
+                b = [x for x in a if not ((x[0] == 0 and x[1] in ("delay", "lost_before")) or
+                                          (x[1] == "early" and x[0] - x[2] <= 0))]
                 if len(b) != len(a):
                     plan["acts"]["c"] = b
                     ch = True
